@@ -113,4 +113,49 @@ Proof.
     destruct (H1 i x xo Hx Hxo) as [A B C D E F G I]. constructor; auto; [now rewrite Ea|intros Hc; rewrite Ec; auto|intros Hg; rewrite Eg in Hg; auto].
   - intros th i Hs. destruct (H5 th i Hs) as (x & Hx & Hst & Hb & Hp). exists x. rewrite refresh_oi_get_stopreq. auto.
 Qed.
+
+(* ---- flush ---------------------------------------------------------------------------------------------- *)
+Definition ilink (th : tid) (s : sys) (j : iid) (x x' : inst) : Prop :=
+  nm x' = nm x /\ pc x' = pc x /\ alive x' = alive x /\ exited x' = exited x /\ l_done x' = l_done x /\
+  (l_runctx x = true -> l_runctx x' = true) /\ (pend (get_thread s th) = Some (REndEarly j) -> l_runctx x' = true).
+
+Lemma flush_fwd th s j x : get j (insts s) = Some x -> exists x', get j (insts (flush th s)) = Some x' /\ ilink th s j x x'.
+Proof. intros H. pose proof (flush_inst3 th s j) as F. rewrite H in F. exact F. Qed.
+Lemma flush_bwd th s j x' : get j (insts (flush th s)) = Some x' -> exists x, get j (insts s) = Some x /\ ilink th s j x x'.
+Proof.
+  intros H. pose proof (flush_inst3 th s j) as F. destruct (get j (insts s)) as [x|]; [|congruence].
+  destruct F as (x2 & E & L). exists x. split; [reflexivity|]. assert (x2 = x') by congruence. subst x2. exact L.
+Qed.
+
+Lemma nl_mono x x' : pc x' = pc x -> (l_runctx x = true -> l_runctx x' = true) -> nl x = true -> nl x' = true.
+Proof. unfold nl. intros -> H. destruct (pc x); auto. Qed.
+
+Lemma PI_flush th s j x x' xo : ilink th s j x x' -> PI s x xo -> PI (flush th s) x' xo.
+Proof.
+  intros (En & Ep & Ea & Ee & Ed & Hr & _) [A B C D E F G I]. constructor; rewrite ?Ep, ?Ea, ?Ee, ?Ed, ?En; auto.
+  - intros Hd. eapply nl_mono; eauto.
+  - rewrite flush_viss. exact I.
+Qed.
+
+Lemma Inv_flush th s o : Inv s o -> Inv (flush th s) o.
+Proof.
+  intros [H1 H2 H3 H4 H5 H6]. constructor.
+  - intros i x' xo Hx' Hxo. destruct (flush_bwd _ _ _ _ Hx') as (x & Hx & L). eapply PI_flush; eauto.
+  - intros i j x' y' Hx' Hy' Hij Hn.
+    destruct (flush_bwd _ _ _ _ Hx') as (x & Hx & (En & Ep & _)). destruct (flush_bwd _ _ _ _ Hy') as (y & Hy & (En2 & Ep2 & _)).
+    rewrite Ep, Ep2. apply (H2 i j x y); congruence.
+  - intros n v Hv Hr. rewrite flush_viss in Hv. destruct (H3 n v Hv Hr) as (j & y & Hy & Hn & Hd & Hp).
+    destruct (flush_fwd th _ _ _ Hy) as (y' & Hy' & (En & Ep & _ & _ & Ed & _)). exists j, y'. repeat split; congruence.
+  - intros th' order. destruct (flush_thread th s th') as (_ & _ & Ed & _). rewrite Ed. apply H4.
+  - intros th' i. destruct (flush_thread th s th') as (_ & Es & _ & Ep). rewrite Es. intros Hs.
+    destruct (H5 th' i Hs) as (x & Hx & Hst & Hb & Hp).
+    destruct (flush_fwd th _ _ _ Hx) as (x' & Hx' & (En & Epc & _ & _ & _ & Hr & Hfl)). exists x'.
+    split; [exact Hx'|]. split; [exact Hst|]. split; [now rewrite Epc|]. intros HE. specialize (Hp HE).
+    rewrite Ep. destruct (N.eqb_spec th th').
+    + subst th'. right. destruct Hp as [Hp|Hp]; auto.
+    + destruct Hp as [Hp|Hp]; auto.
+  - intros Hsd i x' Hx'. destruct (flush_bwd _ _ _ _ Hx') as (x & Hx & (En & Ep & _ & _ & _ & Hr & _)).
+    destruct (H6 Hsd i x Hx) as [Hm|Hn]; [now left|right; eapply nl_mono; eauto].
+Qed.
+
 End RelC03.
